@@ -48,6 +48,8 @@ MintCore(st, m, to, a, authGuard) ==
     LET fails == (IF m \notin a.auth THEN {authGuard} ELSE {})
                  \cup (IF ~st.minters[m] THEN {"is_minter"} ELSE {})
                  \cup (IF a.amt < 0 THEN {"amount"} ELSE {})
+                 \* a negative amount would DEBIT the recipient, who has not authorised anything
+                 \cup (IF a.amt < 0 /\ to \notin a.auth THEN {"named_auth"} ELSE {})
                  \cup (IF a.amt >= 0 /\ Overflows(st.bal[to] + a.amt) THEN {"overflow"} ELSE {})
     IN Guarded(st, Order, fails,
                Acc([st EXCEPT !.bal[to] = @ + a.amt], "unit",
@@ -81,6 +83,7 @@ SpendAllowance(st, f, s, amt) ==
 Transfer(st, a) ==
     LET fails == (IF a.from \notin a.auth THEN {"named_auth"} ELSE {})
                  \cup (IF a.amt < 0 THEN {"amount"} ELSE {})
+                 \cup (IF a.amt < 0 /\ a.to \notin a.auth THEN {"named_auth"} ELSE {})   \* would debit `to`
                  \cup (IF a.amt >= 0 /\ st.bal[a.from] < a.amt THEN {"balance"} ELSE {})
                  \cup (IF a.amt >= 0 /\ a.from # a.to /\ Overflows(st.bal[a.to] + a.amt) THEN {"overflow"} ELSE {})
         st1 == [st EXCEPT !.bal[a.from] = @ - a.amt]
@@ -91,6 +94,7 @@ Transfer(st, a) ==
 TransferFrom(st, a) ==
     LET fails == (IF a.spender \notin a.auth THEN {"named_auth"} ELSE {})
                  \cup (IF a.amt < 0 THEN {"amount"} ELSE {})
+                 \cup (IF a.amt < 0 /\ a.to \notin a.auth THEN {"named_auth"} ELSE {})   \* would debit `to`
                  \cup (IF a.amt >= 0 /\ Eff(st, a.from, a.spender) < a.amt THEN {"allowance"} ELSE {})
                  \cup (IF a.amt >= 0 /\ st.bal[a.from] < a.amt THEN {"balance"} ELSE {})
                  \cup (IF a.amt >= 0 /\ a.from # a.to /\ Overflows(st.bal[a.to] + a.amt) THEN {"overflow"} ELSE {})
@@ -134,6 +138,8 @@ Unimplemented(st, a) ==
     Rej(st, "unimplemented",
         {"unimplemented"} \cup (IF a.name = "Clawback" /\ a.from \notin a.auth THEN {"named_auth"} ELSE {}))
 
+(* verification hook (harness only, never a contract entry point): the Upgradable interface's migration window is
+   opened without swapping code.  The window belongs to another interface: nothing in this module may depend on it *)
 Apply(st, a) ==
     CASE a.name = "Mint"              -> Mint(st, a)
       [] a.name = "MintFrom"          -> MintFrom(st, a)
@@ -147,6 +153,7 @@ Apply(st, a) ==
       [] a.name = "TransferOwnership" -> TransferOwnership(st, a)
       [] a.name = "AdvanceLedger"     -> AdvanceLedger(st, a)
       [] a.name \in {"Clawback", "SetAuthorized", "Authorized"} -> Unimplemented(st, a)
+      [] a.name = "HookOpenWindow" -> Acc(st, "unit", <<>>)
 
 -----------------------------------------------------------------------------
 RECURSIVE SumOver(_, _)
